@@ -1,4 +1,5 @@
 import Amgcl.Proofs.DistSetupChecks
+import Amgcl.Proofs.DistRenumber
 import Amgcl.Properties.C04
 /-!
 # C12 (continued) — the SETUP phase of the distributed hierarchy: what a `true` verdict of the certificate predicates means
@@ -199,5 +200,78 @@ example : saCheck (0 : ℚ) (1/2) 0 1 ⟨2, #[[(0,2),(1,-1)],[(0,-1),(1,2)]]⟩ 
     ⟨1, #[[(0,1)],[(0,1)]]⟩ ⟨1, #[[(0,3/4)],[(0,3/4)]]⟩ = true := by decide +kernel
 
 end sa
+
+section renumber
+open Amgcl.DistRenumber
+
+/-- **renumbering table** (`Model/DistRenumber.lean` = pmis.hpp:635-649, per rank `r`; `vis` = the unknowns the rank can
+read, `Mine` = the unknowns of its aggregates among them, whose numbers lie below `naggr`).  After the
+`partial_sum` the table `new_id` maps the numbers of the aggregates that still have a member ONTO `0 .. naggr'-1`
+(`naggr' = new_id.back()`), injectively: the new numbering of every rank is contiguous, every new number has a member
+(no empty aggregate), aggregates are neither merged nor split.
+Partial with respect to the whole step: that `renumberStep` writes exactly `new_id_r[state i]` into the state of every
+unknown `i` with `owner i = r` (own rows l.651-655, other ranks' rows through the messages l.661-694) is the
+definition of `applyRank`, executed by the driver op `drenumber`, but not restated as a theorem about the final array. -/
+theorem renumber_table_partial (naggr : Nat) (r : Int) (state owner : Array Int) (vis : List Nat)
+    (hrange : ∀ i ∈ vis, Mine r state owner i → state.getD i (-1) < (naggr : Int)) :
+    0 ≤ kept naggr r state owner vis ∧ kept naggr r state owner vis ≤ naggr ∧
+    (∀ i ∈ vis, Mine r state owner i →
+      0 ≤ (newIds naggr r state owner vis).getD (state.getD i (-1)).toNat 0 ∧
+      (newIds naggr r state owner vis).getD (state.getD i (-1)).toNat 0 < kept naggr r state owner vis) ∧
+    (∀ a : Nat, (a : Int) < kept naggr r state owner vis → ∃ i ∈ vis, Mine r state owner i ∧
+      (newIds naggr r state owner vis).getD (state.getD i (-1)).toNat 0 = (a : Int)) ∧
+    (∀ i ∈ vis, ∀ j ∈ vis, Mine r state owner i → Mine r state owner j →
+      ((newIds naggr r state owner vis).getD (state.getD i (-1)).toNat 0 =
+        (newIds naggr r state owner vis).getD (state.getD j (-1)).toNat 0 ↔ state.getD i (-1) = state.getD j (-1))) := by
+  have hkept := kept_eq naggr r state owner vis
+  -- facts about one unknown of an aggregate of rank r
+  have hone : ∀ i ∈ vis, Mine r state owner i →
+      (state.getD i (-1)).toNat < naggr ∧ Used (seen r state owner vis) (state.getD i (-1)).toNat ∧
+      (newIds naggr r state owner vis).getD (state.getD i (-1)).toNat 0 = rankS (seen r state owner vis) (state.getD i (-1)).toNat := by
+    intro i hi hm
+    have h0 : state.getD i (-1) ≥ 0 := hm.2
+    have hlt := hrange i hi hm
+    have hk : (state.getD i (-1)).toNat < naggr := by omega
+    refine ⟨hk, (used_seen_iff r state owner vis _).2 ⟨i, hi, hm, by omega⟩, newIds_spec naggr r state owner vis _ (by omega)⟩
+  have hstep : ∀ k, Used (seen r state owner vis) k → rankS (seen r state owner vis) (k + 1) = rankS (seen r state owner vis) k + 1 := by
+    intro k hu
+    rw [rankS_succ]
+    unfold markF; rw [if_pos hu]
+  refine ⟨by rw [hkept]; exact rankS_nonneg _ _, by rw [hkept]; exact rankS_le _ _, fun i hi hm => ?_, fun a ha => ?_,
+    fun i hi j hj hmi hmj => ?_⟩
+  · obtain ⟨hk, hu, hn⟩ := hone i hi hm
+    rw [hn, hkept]
+    have := rankS_mono (seen r state owner vis) (show (state.getD i (-1)).toNat + 1 ≤ naggr by omega)
+    rw [hstep _ hu] at this
+    exact ⟨rankS_nonneg _ _, by omega⟩
+  · rw [hkept] at ha
+    obtain ⟨k, hk, hu, hr⟩ := rankS_ivt (seen r state owner vis) naggr a ha
+    obtain ⟨i, hi, hm, hik⟩ := (used_seen_iff r state owner vis k).1 hu
+    refine ⟨i, hi, hm, ?_⟩
+    have : (state.getD i (-1)).toNat = k := by omega
+    rw [this, newIds_spec naggr r state owner vis k (by omega)]
+    simpa using hr
+  · obtain ⟨_, hui, hni⟩ := hone i hi hmi
+    obtain ⟨_, huj, hnj⟩ := hone j hj hmj
+    have h0i : state.getD i (-1) ≥ 0 := hmi.2
+    have h0j : state.getD j (-1) ≥ 0 := hmj.2
+    rw [hni, hnj]
+    constructor
+    · intro heq
+      rcases Nat.lt_trichotomy (state.getD i (-1)).toNat (state.getD j (-1)).toNat with hlt | heq' | hgt
+      · have := rankS_mono (seen r state owner vis) (show (state.getD i (-1)).toNat + 1 ≤ (state.getD j (-1)).toNat by omega)
+        rw [hstep _ hui] at this; omega
+      · omega
+      · have := rankS_mono (seen r state owner vis) (show (state.getD j (-1)).toNat + 1 ≤ (state.getD i (-1)).toNat by omega)
+        rw [hstep _ huj] at this; omega
+    · intro heq; rw [heq]
+
+-- rank 0 created aggregates 0, 1, 2; aggregate 1 lost all its members: new numbers 0, 1 and naggr' = 2; an unknown of
+-- rank 0's aggregate 2 that lives on another rank (index 3) is told the new number 1
+example : renumberStep [3, 1] #[0, 2, 0, 2, 0] #[0, 0, 0, 0, 1] [[0, 1, 2, 3], [3, 4]] = ([2, 1], #[0, 1, 0, 1, 0]) ∧
+    inputOk [3, 1] #[0, 2, 0, 2, 0] #[0, 0, 0, 0, 1] [[0, 1, 2, 3], [3, 4]] = true ∧
+    kept 3 0 #[0, 2, 0, 2, 0] #[0, 0, 0, 0, 1] [0, 1, 2, 3] = 2 := by decide +kernel
+
+end renumber
 
 end Amgcl.C12
